@@ -38,3 +38,10 @@ Theorem C19_exit_spec : forall files tr,
   snd (dlint_run files tr) = if existsb fr_fatal files || negb (total_count files =? 0) then 1 else 0.
 Proof. exact dlint_exit_spec. Qed.
 Print Assumptions C19_exit_spec.
+
+From V Require Import Select.Select Select.SelectProofs.
+(* rule selection of the dlint binary: `--rule c` runs exactly the rule with code c; a config file selects by the algebra of C15 *)
+Theorem C19_rule_flag_selects_exactly : forall all c r,
+  In r (dlint_rule_flag all c) <-> In r all /\ r_code r = c.
+Proof. exact rule_flag_selects_exactly. Qed.
+Print Assumptions C19_rule_flag_selects_exactly.
